@@ -40,7 +40,7 @@ Section Facts.
       of the session; the child gets the typed chunks (through input_filter), in order, cut just before the FIRST escape
       character - whatever the chunking *)
   Theorem copy_spec : forall evs o, escaped o = false ->
-    let r := copy esc fin fout evs o in
+    let r := copy_live esc fin fout evs o in
     to_stdout r = to_stdout o ++ outs fout (session esc fin evs) /\
     to_child r = to_child o ++ (match esc with
                                | Some e => fst (before_esc e (typed fin (session esc fin evs)))
@@ -48,11 +48,13 @@ Section Facts.
                                end) /\
     (escaped r = true <-> exists e, esc = Some e /\ snd (before_esc e (typed fin (session esc fin evs))) = true).
   Proof.
-    induction evs as [|ev evs IH]; intros o Ho; cbn [copy session].
+    induction evs as [|ev evs IH]; intros o Ho; cbn [copy_live session].
     - cbn [outs typed flat_map]. rewrite Ho. destruct esc; cbn; rewrite !app_nil_r; repeat split; auto; try discriminate.
       + intros (e & [= <-] & H). discriminate.
       + intros (e & H & _). discriminate.
-    - destruct ev as [d| |d].
+    - destruct ev as [d| |d|].
+      4: { (* the child terminates: of no consequence while nothing looks *)
+           specialize (IH o Ho). cbn [outs typed flat_map]. cbn [app]. exact IH. }
       + (* child output *)
         specialize (IH {| to_stdout := to_stdout o ++ fout d; to_child := to_child o; log_read := log_read o ++ [fout d];
                           log_send := log_send o; escaped := false; child_eof := false; mode_restored := false |} eq_refl).
@@ -87,8 +89,84 @@ Section Facts.
           split; [intros H; apply I3 in H as (e & H & _); discriminate | intros (e & H & _); discriminate].
   Qed.
 
-  (** interact(): pending output first; whatever ends the session the terminal mode is restored *)
-  Theorem interact_spec pending evs :
+  (** -- with the child's death in the picture ----------------------------------------------------------------- *)
+  (** the events the loop processes: it stops at the escape character, at the end of the child's output, or - once the
+      child is gone - as soon as no output of the child is readable *)
+  Fixpoint lsession (alive : bool) (evs : list iev) : list iev :=
+    match evs with
+    | [] => []
+    | ChildExit :: r => ChildExit :: lsession false r
+    | ChildEof :: _ => []
+    | ChildOut d :: r => ChildOut d :: lsession alive r
+    | Typed d :: r =>
+        if negb alive then []
+        else let '(p, found) := cut esc (fin d) in
+             if found then [Typed d]
+             else match p, r with
+                  | _ :: _, ChildExit :: r' => Typed d :: ChildExit :: lsession false r'
+                  | _, _ => Typed d :: lsession true r
+                  end
+    end.
+
+  (** every chunk of child output the loop reads is written to stdout, in order - also what the child wrote before it exited *)
+  Theorem copy_stdout : forall evs alive o,
+    to_stdout (copy esc fin fout alive evs o) = to_stdout o ++ outs fout (lsession alive evs).
+  Proof.
+    induction evs as [|ev evs IH]; intros alive o; cbn [copy lsession].
+    - cbn. now rewrite app_nil_r.
+    - destruct ev as [d| |d|].
+      + rewrite IH. cbn [to_stdout outs flat_map]. fold (outs fout (lsession alive evs)). now rewrite <- app_assoc.
+      + cbn. now rewrite app_nil_r.
+      + destruct alive; cbn [negb]; [|cbn; now rewrite app_nil_r].
+        destruct (cut esc (fin d)) as [p found]. destruct found.
+        * destruct p as [|c p]; [|destruct evs as [|[| | |] evs']]; cbn; now rewrite app_nil_r.
+        * destruct p as [|c p].
+          -- rewrite IH. cbn [to_stdout outs flat_map app]. reflexivity.
+          -- destruct evs as [|[d2| |d2|] evs'].
+             ++ cbn. now rewrite app_nil_r.
+             ++ rewrite IH. reflexivity.
+             ++ rewrite IH. reflexivity.
+             ++ rewrite IH. reflexivity.
+             ++ (* the child exits before the keystrokes are written *)
+                assert (IH' : forall o, to_stdout (copy esc fin fout false evs' o) = to_stdout o ++ outs fout (lsession false evs')).
+                { intros o0. specialize (IH true o0). cbn [copy lsession] in IH. exact IH. }
+                rewrite IH'. reflexivity.
+      + rewrite IH. reflexivity.
+  Qed.
+
+  (** once the child is gone, all the output it had written (every chunk readable before anything else happens) is still copied *)
+  Theorem drained_after_exit ds rest : lsession false (map ChildOut ds ++ rest) = map ChildOut ds ++ lsession false rest.
+  Proof. induction ds as [|d ds IH]; cbn [map app lsession]; [reflexivity | now rewrite IH]. Qed.
+
+  (** while the child lives the loop is the simple copy loop above *)
+  Theorem copy_alive_is_copy_live : forall evs o, Forall (fun e => e <> ChildExit) evs ->
+    copy esc fin fout true evs o = copy_live esc fin fout evs o.
+  Proof.
+    induction evs as [|ev evs IH]; intros o H; [reflexivity|].
+    inversion H as [|? ? Hev Hr]; subst. destruct ev as [d| |d|]; cbn [copy copy_live negb].
+    - now apply IH.
+    - reflexivity.
+    - unfold cut. destruct esc as [e|].
+      + destruct (before_esc e (fin d)) as [p found] eqn:E. destruct found.
+        * destruct p as [|c p]; [reflexivity|]. destruct evs as [|[| | |] evs']; try reflexivity.
+          inversion Hr as [|? ? H1 _]; congruence.
+        * assert (Hp : p = fin d) by (pose proof (before_esc_none e (fin d)) as B; rewrite E in B; exact (B eq_refl)).
+          rewrite <- Hp. destruct p as [|c p]; [now apply IH|]. destruct evs as [|[d2| |d2|] evs']; try (now apply IH).
+          inversion Hr as [|? ? H1 _]; congruence.
+      + destruct (fin d) as [|c p] eqn:Ef; [now apply IH|]. destruct evs as [|[d2| |d2|] evs']; try (now apply IH).
+        inversion Hr as [|? ? H1 _]; congruence.
+    - congruence.
+  Qed.
+
+  (** interact(): pending output first, then everything the loop reads from the child; the terminal mode is restored whatever
+      ends the session *)
+  Theorem interact_stdout pending evs :
+    let r := interact esc fin fout pending evs in
+    to_stdout r = pending ++ outs fout (lsession true evs) /\ mode_restored r = true.
+  Proof. unfold interact. cbv zeta. cbn [to_stdout mode_restored]. rewrite copy_stdout. cbn [to_stdout]. auto. Qed.
+
+  (** ... and, as long as the child lives, the full two-way statement *)
+  Theorem interact_spec pending evs : Forall (fun e => e <> ChildExit) evs ->
     let r := interact esc fin fout pending evs in
     to_stdout r = pending ++ outs fout (session esc fin evs) /\
     to_child r = (match esc with
@@ -97,10 +175,32 @@ Section Facts.
                   end) /\
     mode_restored r = true.
   Proof.
-    unfold interact. cbv zeta. cbn [to_stdout to_child mode_restored].
+    intros Hne. unfold interact. cbv zeta. cbn [to_stdout to_child mode_restored]. rewrite (copy_alive_is_copy_live evs _ Hne).
     destruct (copy_spec evs {| to_stdout := pending; to_child := []; log_read := []; log_send := []; escaped := false; child_eof := false;
                                mode_restored := false |} eq_refl) as (A & B & _).
     cbn [to_stdout to_child] in *. auto.
+  Qed.
+
+  (** whatever the child's fate: the escape character never reaches it *)
+  Theorem escape_never_forwarded e : esc = Some e -> forall evs alive o, ~ In e (to_child o) ->
+    ~ In e (to_child (copy esc fin fout alive evs o)).
+  Proof.
+    intros He. rewrite He. assert (NE : forall d, ~ In e (fst (before_esc e d))).
+    { induction d as [|c d IH]; cbn [before_esc]; [intros []|].
+      destruct (N.eqb_spec c e); [intros []|]. destruct (before_esc e d) as [p f]. cbn [fst] in *. intros [H|H]; [congruence | now apply IH]. }
+    induction evs as [|ev evs IH]; intros alive o Ho; cbn [copy]; [exact Ho|].
+    destruct ev as [d| |d|].
+    - apply IH. exact Ho.
+    - exact Ho.
+    - destruct alive; cbn [negb]; [|exact Ho]. unfold cut. pose proof (NE (fin d)) as Hp.
+      destruct (before_esc e (fin d)) as [p found]. cbn [fst] in Hp.
+      assert (A1 : ~ In e (to_child o ++ p)) by (intros H; apply in_app_or in H as [H|H]; auto).
+      assert (A0 : ~ In e (to_child o ++ [])) by now rewrite app_nil_r.
+      destruct found.
+      + destruct p as [|c p]; [exact A1|]. destruct evs as [|[| | |] evs']; cbn [to_child]; auto.
+      + destruct p as [|c p]; [apply IH; exact A1|]. destruct evs as [|[d2| |d2|] evs']; try (apply IH; exact A1).
+        specialize (IH true). cbn [copy] in IH. apply IH. exact A0.
+    - apply IH. exact Ho.
   Qed.
 
   (** nothing typed after the escape character - and not the escape character itself - reaches the child *)
